@@ -1079,5 +1079,8 @@ end dotsupport
 --   * `F(0) == 0`                      : an assumption on the uninterpreted statistic `F` (no theorem above needs it);
 --   * `ixperm(M,p)[x][y] == M[p[x]][p[y]]` : the definition `ixperm`;
 --   * `isperm(p,n) ∧ 0≤x<n → 0≤p[x]<n` : `σ : Equiv.Perm ι` maps `ι` to `ι` by its type.
+--   * `sdist(G,x,y) >= 0`, range facts of the Skolem functions `walkmid walkfirst splitz dotwit` : typing (`ℕ`, `z : ι`).
+-- (second batch: singletons, Qrawg / QrawB gain, relabel_g, umul linearity, walks incl. split and pigeonhole, dot support:
+--  all proved.)
 
 end VerifLemmas
